@@ -399,6 +399,58 @@ func TestC06(t *testing.T) {
 		if rd.pos != len(rd.b) {
 			failf(rt, c, "C06 %s: reader position %d after the end %d", via, rd.pos, len(rd.b))
 		}
+		// ---- a one-shot call on the same instance in the middle of a stream: wherever the library sends what is
+		// written afterwards, the destination holds whole messages only - the first value, then nothing or the later one
+		if !byPeer && len(vals) >= 2 && rapid.IntRange(0, 3).Draw(rt, "oneShotInBetween") == 0 {
+			var w2 bytes.Buffer
+			first, mid, last := vals[0], vals[1], vals[len(vals)-1]
+			var oneShot []byte
+			var e1, e2, e3 error
+			pv, st := guard(func() {
+				if via == "Serializer" {
+					s2 := hessian.NewSerializer(tm, copyNames(nm))
+					e1 = s2.WriteTo(&w2, first)
+					oneShot, e2 = s2.ToBytes(mid)
+					e3 = s2.Write(last)
+				} else {
+					en2 := hessian.NewEncoder(&w2, copyNames(nm))
+					e1 = en2.WriteObject(first)
+					oneShot, e2 = en2.Encode(mid)
+					e3 = en2.WriteObject(last)
+				}
+			})
+			if pv != nil || e1 != nil || e2 != nil {
+				failf(rt, c, "C06 %s: stream write, one-shot call, stream write on one instance: %v %v %v %v [%s]", via, e1, e2, e3, pv, st)
+			}
+			if o, err := hessian.ToObject(oneShot, tm); err != nil {
+				failf(rt, c, "C06 %s: the one-shot encoding made between two stream writes does not decode: %v", via, err)
+			} else if cerr := vcmp.Equal(mid, o, nm); cerr != nil {
+				failf(rt, c, "C06 %s: the one-shot encoding made between two stream writes decodes to another value: %v", via, cerr)
+			}
+			rd2 := &countingReader{b: w2.Bytes()}
+			d2 := hessian.NewDecoder(rd2, tm)
+			o1, err := d2.ReadObject()
+			if err != nil {
+				failf(rt, c, "C06 %s: after stream write, one-shot call, stream write the destination's first message does not decode: %v\n bytes %s", via, err, hexClip(w2.Bytes(), 200))
+			}
+			if cerr := vcmp.Equal(first, o1, nm); cerr != nil {
+				failf(rt, c, "C06 %s: after stream write, one-shot call, stream write the destination's first message differs: %v", via, cerr)
+			}
+			if rd2.pos < len(rd2.b) {
+				o2, err := d2.ReadObject()
+				if err != nil {
+					failf(rt, c, "C06 %s: stream write of %s, one-shot call with %s, stream write of %s on one instance: what the destination holds after the first message is not a message: %v\n bytes %s",
+						via, descs[0], descs[1], descs[len(vals)-1], err, hexClip(w2.Bytes(), 300))
+				}
+				if cerr := vcmp.Equal(last, o2, nm); cerr != nil {
+					failf(rt, c, "C06 %s: stream write, one-shot call, stream write on one instance: the destination's second message is not the value written last: %v\n bytes %s", via, cerr, hexClip(w2.Bytes(), 300))
+				}
+				if rd2.pos != len(rd2.b) {
+					failf(rt, c, "C06 %s: stream write, one-shot call, stream write: %d octets after the second message", via, len(rd2.b)-rd2.pos)
+				}
+			}
+			r.Label("one-shot call between two stream writes")
+		}
 		r.Eval()
 		distinctTop := map[string]bool{}
 		reused := false
